@@ -25,14 +25,19 @@ type mwReg struct {
 type mwEntry struct {
 	methods map[string]mwReg
 	first   []string // inner list of the call that created the OPTIONS/405 handlers
+	opt     int64    // base ids of the automatic handlers of this generation (from the builder log)
+	m405    int64
 }
 
 type mwRouter struct {
-	name  string
-	r     *mux.Router[*mon.Hnd]
-	use   []string // Use list in order of addition
-	trace bool
-	pats  map[string]*mwEntry
+	name    string
+	r       *mux.Router[*mon.Hnd]
+	use     []string // Use list in order of addition
+	trace   bool
+	pats    map[string]*mwEntry
+	rootOpt int64 // base id of the OPTIONS * handler
+	nf      int64 // base id of the 404 handler
+	traceH  int64
 }
 
 type mwWorld struct {
@@ -82,41 +87,88 @@ func (w *mwWorld) fail(msg string, extra map[string]any) {
 	w.c.Violate(msg, m)
 }
 
-// handlerCount: how many handler objects Use has to wrap on this router.
-func (rt *mwRouter) handlerCount() int {
-	n := 2 // root OPTIONS (OPTIONS *) and 404
+// wrapKey identifies one wrapped handler as a middleware factory sees it.
+type wrapKey struct {
+	base   int64
+	method string
+	router string
+}
+
+// wrapped lists the handlers Use has to wrap on this router: every one exactly once per middleware.
+func (rt *mwRouter) wrapped() []wrapKey {
+	n := rt.name
+	ks := []wrapKey{{rt.rootOpt, "OPTIONS", n}, {rt.nf, "", n}}
 	if rt.trace {
-		n++
+		ks = append(ks, wrapKey{rt.traceH, "TRACE", n})
 	}
 	for _, e := range rt.pats {
-		n += len(e.methods) + 2
-		if _, ok := e.methods["GET"]; ok {
-			n++
+		for m, reg := range e.methods {
+			ks = append(ks, wrapKey{reg.base.ID, m, n})
+			if m == "GET" {
+				ks = append(ks, wrapKey{reg.base.ID, "HEAD", n})
+			}
+		}
+		ks = append(ks, wrapKey{e.opt, "OPTIONS", n}, wrapKey{e.m405, "", n})
+	}
+	return ks
+}
+
+// checkCalls is the "exactly once per wrapped handler" monitor for one API call: no (factory,
+// handler, method) triple may occur twice, and every handler the model knows must have been wrapped
+// by every factory named. Wrapped handlers the model does not know (a future automatic handler) are tolerated.
+func (w *mwWorld) checkCalls(what string, calls []mon.MWCall, names []string, want []wrapKey) {
+	type k struct {
+		name string
+		wrapKey
+	}
+	seen := map[k]int{}
+	for _, c := range calls {
+		seen[k{c.Name, wrapKey{c.NextBase, c.Method, c.Router}}]++
+	}
+	for key, n := range seen {
+		if n > 1 {
+			w.fail(fmt.Sprintf("%s: factory %s was invoked %d times for one wrapped handler (base h%d, method %q)", what, key.name, n, key.base, key.method), nil)
+			return
 		}
 	}
-	return n
+	for _, name := range names {
+		for _, wk := range want {
+			if seen[k{name, wk}] != 1 {
+				w.fail(fmt.Sprintf("%s: factory %s was not invoked for wrapped handler (base h%d, method %q)", what, name, wk.base, wk.method), nil)
+				return
+			}
+		}
+	}
 }
 
 func (w *mwWorld) newRouter(name string, viaGroup bool, trace bool) *mwRouter {
 	rt := &mwRouter{name: name, trace: trace, pats: map[string]*mwEntry{}}
 	var o []mux.Option
-	if trace {
-		o = append(o, mux.WithTrace(w.env.NewHnd(mon.KTrace, "")))
-	}
 	w.env.TakeMWCalls()
+	nb := len(w.env.Builders)
+	var th *mon.Hnd
+	if trace {
+		th = w.env.NewHnd(mon.KTrace, "")
+		o = []mux.Option{mux.WithTrace(th)}
+		rt.traceH = th.ID
+	}
 	if viaGroup {
 		rt.r = w.group.New(name, mux.NewPathVersion("", "never-"+name), o...)
 		rt.use = append(rt.use, w.gUse...)
 		w.inGroup[name] = true
+		rt.nf = w.env.Group404.ID
 		w.log("Group.New(%s trace=%v)", name, trace)
 	} else {
 		rt.r = w.env.NewRouter(name, o...)
+		rt.nf = w.env.NotFoundOf[name].ID
 		w.log("NewRouter(%s trace=%v)", name, trace)
 	}
-	calls := w.env.TakeMWCalls()
-	if want := len(rt.use) * rt.handlerCount(); len(calls) != want {
-		w.fail(fmt.Sprintf("creating router %s invoked middleware factories %d times, expected %d", name, len(calls), want), nil)
+	for _, b := range w.env.Builders[nb:] {
+		if b.Kind == mon.KOptions && b.Pattern == "" {
+			rt.rootOpt = b.H.ID
+		}
 	}
+	w.checkCalls("creating router "+name, w.env.TakeMWCalls(), rt.use, rt.wrapped())
 	w.routers = append(w.routers, rt)
 	return rt
 }
@@ -124,14 +176,10 @@ func (w *mwWorld) newRouter(name string, viaGroup bool, trace bool) *mwRouter {
 func (w *mwWorld) use(rt *mwRouter) {
 	ns, ms := w.names("u", w.c.R.Range(1, 2))
 	w.env.TakeMWCalls()
-	hc := rt.handlerCount()
 	rt.r.Use(ms...)
 	rt.use = append(rt.use, ns...)
 	w.log("%s.Use(%v)", rt.name, ns)
-	calls := w.env.TakeMWCalls()
-	if len(calls) != len(ns)*hc {
-		w.fail(fmt.Sprintf("Use(%v) on %s invoked factories %d times for %d existing handlers", ns, rt.name, len(calls), hc), nil)
-	}
+	w.checkCalls(fmt.Sprintf("%s.Use(%v)", rt.name, ns), w.env.TakeMWCalls(), ns, rt.wrapped())
 	if len(rt.pats) > 0 {
 		w.useAfterReg = true
 	}
@@ -140,10 +188,10 @@ func (w *mwWorld) use(rt *mwRouter) {
 func (w *mwWorld) groupUse() {
 	ns, ms := w.names("g", w.c.R.Range(1, 2))
 	w.env.TakeMWCalls()
-	want := len(ns) // the group's own 404
+	var want []wrapKey
 	for _, rt := range w.routers {
 		if w.inGroup[rt.name] {
-			want += len(ns) * rt.handlerCount()
+			want = append(want, rt.wrapped()...)
 		}
 	}
 	w.group.Use(ms...)
@@ -157,14 +205,12 @@ func (w *mwWorld) groupUse() {
 		}
 	}
 	w.log("Group.Use(%v)", ns)
-	if calls := w.env.TakeMWCalls(); len(calls) != want {
-		w.fail(fmt.Sprintf("Group.Use(%v) invoked factories %d times, expected %d", ns, len(calls), want), nil)
-	}
+	want = append(want, wrapKey{w.env.Group404.ID, "", ""}) // the group's own not-found handler, router name ""
+	w.checkCalls(fmt.Sprintf("Group.Use(%v)", ns), w.env.TakeMWCalls(), ns, want)
 }
 
 func (w *mwWorld) groupAdd(rt *mwRouter) {
 	w.env.TakeMWCalls()
-	want := len(w.gUse) * rt.handlerCount()
 	w.group.Add(mux.NewPathVersion("", "never-"+rt.name), rt.r)
 	rt.use = append(rt.use, w.gUse...)
 	w.inGroup[rt.name] = true
@@ -172,9 +218,7 @@ func (w *mwWorld) groupAdd(rt *mwRouter) {
 	if len(rt.pats) > 0 && len(w.gUse) > 0 {
 		w.useAfterReg = true
 	}
-	if calls := w.env.TakeMWCalls(); len(calls) != want {
-		w.fail(fmt.Sprintf("Group.Add(%s) invoked factories %d times, expected %d", rt.name, len(calls), want), nil)
-	}
+	w.checkCalls("Group.Add("+rt.name+")", w.env.TakeMWCalls(), w.gUse, rt.wrapped())
 }
 
 // handle registers through a random facade nesting and mirrors the lists.
@@ -200,6 +244,7 @@ func (w *mwWorld) handle(rt *mwRouter) {
 	desc := ""
 	depth := 0
 	w.env.TakeMWCalls()
+	nb := len(w.env.Builders)
 	switch r.Intn(5) {
 	case 0: // Router.Handle
 		rt.r.Handle(pattern, h, regMW, methods...)
@@ -245,21 +290,26 @@ func (w *mwWorld) handle(rt *mwRouter) {
 	if first {
 		e = &mwEntry{methods: map[string]mwReg{}, first: inner}
 		rt.pats[pattern] = e
+		for _, b := range w.env.Builders[nb:] {
+			if b.Pattern == pattern && b.Kind == mon.KOptions {
+				e.opt = b.H.ID
+			} else if b.Pattern == pattern {
+				e.m405 = b.H.ID
+			}
+		}
 	}
-	wrapped := len(methods)
+	var want []wrapKey
 	for _, m := range methods {
 		e.methods[m] = mwReg{base: h, inner: inner}
+		want = append(want, wrapKey{h.ID, m, rt.name})
 		if m == "GET" {
-			wrapped++
+			want = append(want, wrapKey{h.ID, "HEAD", rt.name})
 		}
 	}
 	if first {
-		wrapped += 2
+		want = append(want, wrapKey{e.opt, "OPTIONS", rt.name}, wrapKey{e.m405, "", rt.name})
 	}
-	calls := w.env.TakeMWCalls()
-	if want := wrapped * (len(inner) + len(rt.use)); len(calls) != want {
-		w.fail(fmt.Sprintf("registration invoked middleware factories %d times, expected %d (%d wrapped handlers x %d middlewares)", len(calls), want, wrapped, len(inner)+len(rt.use)), nil)
-	}
+	w.checkCalls("registration of "+pattern, w.env.TakeMWCalls(), append(append([]string{}, inner...), rt.use...), want)
 }
 
 func (w *mwWorld) remove(rt *mwRouter) {
